@@ -123,3 +123,26 @@ def serialisers_do_not_mutate_model(ctx, clause, ignore_fields=()):
         obs.extend(o)
         n += k
     return obs, n
+
+
+def fresh_receivers(ctx, clause, method="serialize_shapes"):
+    """Single-use objects: the receiver of every `<x>.serialize_shapes()` is an object built for this call.  The serialisers
+    accumulate their output in their own fields (line buffer, result string, rdflib graph) and never reset them, so a
+    serialiser that is kept in a field and used again writes the earlier output a second time."""
+    from ..report import Ob
+    from ..core import norm
+    g, r = ctx.flow, ctx.r
+    obs, n = [], 0
+    for cs in r.callsites:
+        if not (isinstance(cs.node.func, ast.Attribute) and cs.node.func.attr == method) or not ctx.reachable(cs.func):
+            continue
+        n += 1
+        recv = cs.node.func.value
+        back = g.back([g.enode(recv)], labels=("copy", "derive"))
+        fields = sorted("%s.%s" % (x[1].split(":")[-1], x[2]) for x in back if x[0] == "f")
+        key = "R-FRESH|%s|%s" % (method, cs.func.short)
+        obs.append(Ob(clause, "R-FRESH", key, cs.func.loc(cs.node), not fields,
+                      "`%s` runs on an object built for this call" % norm(cs.node)[:50] if not fields else
+                      "`%s` can run on an object kept in %s: the serialiser accumulates its output in its own fields and is never "
+                      "reset, so a second use repeats (or extends) the first output" % (norm(cs.node)[:50], ", ".join(fields[:3]))))
+    return obs, n
